@@ -492,6 +492,49 @@ def scenarios(ctx, workdir):
     serve_check(ctx, env, d, 'scenario-2')
     ctx.nontriv(('scenario', 2))
     env.close()
+    # S3: two multi-period streams over the same source; a track is dropped from a Period of the SECOND one (whose adaptation-set
+    # primary keys differ from its track ids): exactly that adaptation set goes, the first stream keeps all of its own
+    env = AppEnv(os.path.join(workdir, 'scenario3'), streams=(), copy_media=True)
+    logging.disable(logging.CRITICAL)
+    d = Driver(ctx, env)
+    r = d.add_stream('alpha', 'Alpha')
+    alpha = (r.get_json(silent=True) or {}).get('id')
+    for name, kind in (('clip_v', 'v'), ('clip_a', 'a')):
+        r = d.upload(alpha, name, kind)
+        d.index((r.get_json(silent=True) or {}).get('pk'))
+    d.set_timing_ref(alpha, 'alpha', 'Alpha', 'clip_v')
+    d.add_mps('first', [('p1', alpha, [1, 2])])
+    d.add_mps('second', [('p1', alpha, [1, 2])])
+
+    def tracks_by_stream():
+        with env.app.app_context():
+            return {m_.name: {p_.pid: sorted(a_.track_id for a_ in p_.adaptation_sets) for p_ in m_.periods}
+                    for m_ in env.models.MultiPeriodStream.all()}
+    start = tracks_by_stream()
+    with env.app.app_context():
+        mps = env.models.MultiPeriodStream.get(name='second')
+        mpk = mps.pk if mps is not None else None
+        plist = [{'pid': p_.pid, 'pk': p_.pk, 'ordering': i + 1, 'stream': p_.stream_pk, 'start': 'PT0S', 'duration': 'PT8S',
+                  'tracks': [{'track_id': a_.track_id, 'role': a_.role.name.lower(), 'encrypted': a_.encrypted, 'lang': a_.lang, 'pk': a_.pk,
+                              'enabled': True} for a_ in p_.adaptation_sets if a_.track_id != 2]}
+                 for i, p_ in enumerate(mps.periods)] if mps is not None else []
+    if mpk is not None and start.get('first') == {'p1': [1, 2]} and start.get('second') == {'p1': [1, 2]}:
+        body = {'name': 'second', 'title': 'mps second', 'options': None, 'pk': mpk, 'csrf_token': d._mps_tok(), 'periods': plist}
+        r = d.c.post('/api/multi-period-streams/second', json=body, headers=d.actor.headers())
+        d.log.append('POST /api/multi-period-streams/second drop track 2 of p1 -> %d' % r.status_code)
+        ctx.count('http:scenario')
+        end = tracks_by_stream()
+        if r.status_code >= 500:
+            ctx.violation('scenario 3: %s' % d.log[-1], {'history': list(d.log)})
+        if end.get('first') != {'p1': [1, 2]} or end.get('second') != {'p1': [1]}:
+            ctx.violation('scenario 3: after dropping track 2 from second/p1 the store holds %r (expected first/p1 = [1, 2], second/p1 = [1])' % end,
+                          {'history': list(d.log)})
+        else:
+            ctx.nontriv(('scenario', 3))
+        oracle(ctx, d.state(), 'scenario 3 (%s)' % d.log[-1], {'history': list(d.log)})
+    else:
+        ctx.dist('scenario3:setup-failed:%r' % (start,))
+    env.close()
 
 
 def run(ctx):
